@@ -318,9 +318,22 @@ fn derivation_checks(rep: &Report, cen: &mut Census) {
                 let pre: String = pos_steps.iter().map(|s| format!("/{}", s)).collect();
                 let mp = format!("<{}>", alts.iter().map(|a| a.to_string()).collect::<Vec<_>>().join(";"));
                 let k1 = format!("[{}/48']{}{}/{}{}", xs[0].fp, xs[0].s, pre, mp, wild);
-                let k2 = format!("{}{}/{}{}", xs[1].s, pre, mp, wild);
-                for templ in ["wpkh(K1)", "wsh(multi(1,K1,K2))", "tr(K1,pk(K2))", "sh(wsh(and_v(v:pk(K1),pk(K2))))"] {
-                    let ds = templ.replace("K1", &k1).replace("K2", &k2);
+                // the second key: another xpub with the same alternatives; another xpub with other
+                // alternatives; the SAME xpub with other alternatives; the same xpub one step deeper
+                let alts2: Vec<u32> = alts.iter().map(|a| a + 10).collect();
+                let mp2 = format!("<{}>", alts2.iter().map(|a| a.to_string()).collect::<Vec<_>>().join(";"));
+                let k2_variants: Vec<(String, Vec<u32>, String)> = vec![
+                    (format!("{}{}/{}{}", xs[1].s, pre, mp, wild), alts.clone(), mp.clone()),
+                    (format!("{}{}/{}{}", xs[1].s, pre, mp2, wild), alts2.clone(), mp2.clone()),
+                    (format!("{}{}/{}{}", xs[0].s, pre, mp2, wild), alts2.clone(), mp2.clone()),
+                    (format!("{}/9{}/{}{}", xs[0].s, pre, mp2, wild), alts2.clone(), mp2.clone()),
+                ];
+                for (k2, k2_alts, k2_mp) in &k2_variants {
+                for templ in ["wpkh(K1)", "wsh(multi(1,K1,K2))", "tr(K1,pk(K2))", "sh(wsh(and_v(v:pk(K1),pk(K2))))", "tr(K2,{pk(K1),pk(K2)})"] {
+                    if !templ.contains("K2") && k2_mp != &mp {
+                        continue;
+                    }
+                    let ds = templ.replace("K1", &k1).replace("K2", k2);
                     bump(cen, "multipath_descriptors");
                     let desc = match Descriptor::<DescriptorPublicKey>::from_str(&ds) {
                         Ok(d) => d,
@@ -336,7 +349,7 @@ fn derivation_checks(rep: &Report, cen: &mut Census) {
                                 continue;
                             }
                             for (j, dj) in v.iter().enumerate() {
-                                let sel = ds.replace(&mp, &alts[j].to_string());
+                                let sel = templ.replace("K1", &k1.replace(&mp, &alts[j].to_string())).replace("K2", &k2.replace(k2_mp, &k2_alts[j].to_string()));
                                 let exp = Descriptor::<DescriptorPublicKey>::from_str(&sel).expect("selected string parses");
                                 if exp.to_string() != dj.to_string() || exp != *dj {
                                     rep.violation(Violation {
@@ -354,6 +367,7 @@ fn derivation_checks(rep: &Report, cen: &mut Census) {
                             rep.violation(Violation { key: format!("C16|multipath-fails|{}", ds), class: "multipath-split-fails".into(), what: format!("{:?}", other.map(|r| r.is_ok())), case: json!({"descriptor": ds}) });
                         }
                     }
+                }
                 }
             }
         }
@@ -492,7 +506,7 @@ pub fn run(tier: Tier) -> i32 {
         rep.get("derivations_ok") + rep.get("script_code_signatures_verified") + rep.get("sortedmulti_satisfactions_validated"),
         evals,
         rep.get("derivations_ok").min(rep.get("descriptors")),
-        "every output type x key form x 4 networks and every B term up to the node bound inside sh / wsh / sh-wsh / tr: scriptPubKey, address, explicit_script, script_code, unsigned_script_sig against byte-level references, and a spend signed over script_code() verified on the RSM; xpub key expressions (origin x steps x wildcard) x indices vs independent BIP32 derivation, find_derivation_index_for_spk over every search range [a,b) within 0..5, documented errors; all key permutations of sortedmulti (n <= 4); multipath split vs textual selection. non-trivial = min(derivations confirmed, descriptors compared)",
+        "every output type x key form x 4 networks and every B term up to the node bound inside sh / wsh / sh-wsh / tr: scriptPubKey, address, explicit_script, script_code, unsigned_script_sig against byte-level references, and a spend signed over script_code() verified on the RSM; xpub key expressions (origin x steps x wildcard) x indices vs independent BIP32 derivation, find_derivation_index_for_spk over every search range [a,b) within 0..5, documented errors; all key permutations of sortedmulti (n <= 4); multipath split vs textual selection (two keys on different xpubs / the same xpub, equal and different alternatives). non-trivial = min(derivations confirmed, descriptors compared)",
         true,
     )
 }
